@@ -18,7 +18,7 @@ ASSUMPTIONS = ['unittest semantics of the running interpreter (calibrated)',
                'leniencies listed in DESIGN.md 2/C12 (import failures inside '
                'per-layer errors; per-iteration vs all-iteration totals with '
                '--repeat; decorator-skipped test counted or not in tests)']
-FLOORS = {'ran_lines_checked': 600, 'totals_checked': 150,
+FLOORS = {'child_stderr_chatter_tests': 50, 'ran_lines_checked': 600, 'totals_checked': 150,
           'name_lists_checked': 100, 'mode_pairs': 40, 'multi_event_tests': 50,
           'layer_failure_cases': 20, 'import_failure_cases': 10}
 BATCH_TIMEOUT = 400
@@ -221,6 +221,11 @@ def run_case(case):
             other = ('par', plan, dict(opts, processes=rng.randint(2, 4)))
         if other:
             mode, p2, o2 = other
+            if rng.random() < 0.6:
+                # the tests chatter on the real stderr of the subprocess
+                # (complete, non-header lines; some after the report)
+                p2, nn = gen.benign_child_stderr(rng, p2, sorted(T.tests))
+                C('child_stderr_chatter_tests', nn)
             wo = common.run_world(spec, p2, o2, root=root)
             if wo.raised is not None:
                 V('run-aborted', 'run-raised', mode=mode,
